@@ -246,4 +246,67 @@ theorem insts_export (ctx : PRef → Option (List (String × Nat))) (ws : List (
         · exact ⟨ports, hc, by rw [t2]; exact hnd, t3, by rw [t2]; exact hcov⟩
         · exact e3 pi hpi
 
+/-! ## the place of the internal signals in the list does not matter -/
+
+theorem lookup_append (k : String) : ∀ (a b : List (String × Nat)),
+    lookup k (a ++ b) = match lookup k a with | some w => some w | none => lookup k b
+  | [], b => rfl
+  | (x, w) :: rest, b => by
+    simp only [List.cons_append, lookup]
+    by_cases hx : x = k
+    · simp [hx]
+    · simp only [if_neg hx]; exact lookup_append k rest b
+
+theorem lookup_none_of_not_mem (k : String) : ∀ (a : List (String × Nat)), k ∉ a.map (·.1) → lookup k a = none
+  | [], _ => rfl
+  | (x, w) :: rest, h => by
+    simp only [List.map_cons, List.mem_cons, not_or] at h
+    simp only [lookup]
+    rw [if_neg (fun e => h.1 e.symm)]
+    exact lookup_none_of_not_mem k rest h.2
+
+/-- Names unique across both halves: looking a name up finds the same width whichever half is written first. -/
+theorem lookup_append_comm (a b : List (String × Nat)) (hnd : ((a ++ b).map (·.1)).Nodup) (k : String) :
+    lookup k (a ++ b) = lookup k (b ++ a) := by
+  rw [lookup_append, lookup_append]
+  rw [List.map_append] at hnd
+  have hdis := (List.nodup_append.mp hnd).2.2
+  cases ha : lookup k a with
+  | none => cases lookup k b <;> rfl
+  | some w =>
+    have hka : k ∈ a.map (·.1) := by
+      false_or_by_contra
+      rename_i hc
+      rw [lookup_none_of_not_mem k a hc] at ha
+      cases ha
+    have hkb : k ∉ b.map (·.1) := fun hb => hdis k hka k hb rfl
+    rw [lookup_none_of_not_mem k b hkb]
+
+mutual
+theorem sigsOK_congr (ws ws' : List (String × Nat)) (h : ∀ k, lookup k ws = lookup k ws') :
+    ∀ c : SConn, sigsOK ws c = sigsOK ws' c
+  | .sig n w => by simp only [sigsOK, h]
+  | .slice p _ => by simp only [sigsOK]; exact sigsOK_congr ws ws' h p
+  | .concat ps => by simp only [sigsOK]; exact sigsOKList_congr ws ws' h ps
+theorem sigsOKList_congr (ws ws' : List (String × Nat)) (h : ∀ k, lookup k ws = lookup k ws') :
+    ∀ ps : List SConn, sigsOKList ws ps = sigsOKList ws' ps
+  | [] => by simp only [sigsOKList]
+  | p :: ps => by simp only [sigsOKList]; rw [sigsOK_congr ws ws' h p, sigsOKList_congr ws ws' h ps]
+end
+
+theorem instOK_congr (ctx : PRef → Option (List (String × Nat))) (ws ws' : List (String × Nat))
+    (h : ∀ k, lookup k ws = lookup k ws') (i : HInst) : instOK ctx ws i = instOK ctx ws' i := by
+  have hc : ∀ w c, connOK ws w c = connOK ws' w c := by
+    intro w c; unfold connOK; rw [sigsOK_congr ws ws' h c]
+  unfold instOK
+  simp only [hc]
+
+theorem sigList_lookup_comm (hm : HModule) (hnd : ((hm.signals ++ hm.ports).map (·.name)).Nodup) (k : String) :
+    lookup k (sigList hm) = lookup k (sigListPF hm) := by
+  unfold sigList sigListPF
+  rw [List.map_append, List.map_append]
+  apply lookup_append_comm
+  rw [← List.map_append, List.map_map]
+  exact hnd
+
 end Hdl21.ExportWF
